@@ -19,7 +19,9 @@ func NewNumber(tok string) (n Num, err error) {
 			err = fmt.Errorf("panic: %v", r)
 		}
 	}()
-	x, e := ijson.NewNumber([]byte(tok))
+	// (ParseNumber is what the library reads DOCUMENT numerals with since ef2e152; NewNumber, which
+	// its own tests pin to refuse 0e1, is left to the rule values, where no exponent is written)
+	x, e := ijson.ParseNumber([]byte(tok))
 	if e != nil {
 		return Num{}, e
 	}
